@@ -478,6 +478,9 @@ class LinkTap:
                 self.negs.append(negotiate(self.kexinits[0][len(self.negs)],
                                            self.kexinits[1][len(self.negs)]))
             neg = self.negs[ex]
+            # strict mode is decided by the INITIAL pair of KEXINITs and holds for the connection (the markers in
+            # later KEXINITs are to be ignored, and OpenSSH does not even send them)
+            neg["strict"] = self.negs[0]["strict"]
             if len(self.kh[d]) <= ex:
                 raise HarnessError("side %d sent NEWKEYS for exchange %d but no (K,H) was captured" % (d, ex))
             K, H = self.kh[d][ex]
